@@ -208,7 +208,7 @@ def merge(a, b):
 # replay
 
 def write_replay(scenario, name):
-    d = os.path.join(VERIF, 'replays')
+    d = os.environ.get('VERIF_REPLAY_DIR') or os.path.join(VERIF, 'replays')
     os.makedirs(d, exist_ok=True)
     path = os.path.join(d, name)
     with open(path, 'w') as f:
@@ -397,7 +397,7 @@ def check(prop, tier, verif_seed, budget_s=None, jobs=None, max_runs=None,
                 kid in ln for ln in lines if ln.startswith('KNOWN')):
             print(f'KNOWN-FINDING: property={prop} {kid} {k["text"]} '
                   f'[met {n} times during the search]')
-    if write_evidence:
+    if write_evidence and not os.environ.get('VERIF_NO_EVIDENCE'):
         write_evidence_file(engine, prop, tier, verif_seed, agg, wall,
                             violations, known)
     rate = agg['runs'] / max(wall, 1e-9)
